@@ -24,6 +24,7 @@ open Haiway.Throttle
 def parsePeriod (tok : String) : Option PeriodArg :=
   let body := (tok.drop 1).toString
   if tok.startsWith "f" then body.toNat?.map .float
+  else if tok.startsWith "F" then body.toNat?.map .float    -- fine time unit (harness side): the model is unit-free
   else if tok.startsWith "i" then body.toNat?.map .int
   else if tok.startsWith "t" then
     match (body.splitOn ",").mapM String.toNat? with
